@@ -81,7 +81,7 @@ def run_panel(case, want_targets=None):
             V = random_value_arrays(r, mj)
         else:
             V = [I.np.asarray(v) for v in fns.solve(params_impl(P))]
-        init_obj = init_impl(mj, init, int_cont=bool(case.get("int_init")))
+        init_obj = init_impl(mj, init, int_cont=bool(case.get("int_init")), narrow=bool(case.get("narrow_init")))
         info["init_keys"] = list(init_obj)
         info["init_snap"] = {k: I.np.asarray(v).copy() for k, v in init_obj.items()}
         df = fns.simulate(params_impl(P), initial_states=init_obj, vf_arr_list=[I.jnp.asarray(v) for v in V],
@@ -114,6 +114,7 @@ def base_out(info, case):
     h[f"flat_choices={len(meta.get('flat') or [])}"] = 1
     h[f"lower_bound={bool(meta.get('lower_bound'))}"] = 1
     h[f"int_init={bool(case.get('int_init'))}"] = 1
+    h[f"narrow_init={bool(case.get('narrow_init'))}"] = 1
     if info.get("starved"):
         h["starved_agents"] = 1
     from pipeline import wf_hist
@@ -126,6 +127,6 @@ def replay_case(info, case):
     from dsl import params_json
 
     c = explicit_case(info["mj"], [info["P"]], n_agents=case.get("n_agents", 6), sim_seed=info.get("sim_seed", 0),
-                      init={s: [str(x) for x in v] for s, v in info["init"].items()}, random_V=case.get("random_V", False), int_init=case.get("int_init", False),
+                      init={s: [str(x) for x in v] for s, v in info["init"].items()}, random_V=case.get("random_V", False), int_init=case.get("int_init", False), narrow_init=case.get("narrow_init", False),
                       seed=case.get("seed", 0), meta=info["meta"])
     return c
